@@ -1,5 +1,5 @@
 (* Extraction of the syntax-layer model (lexer, escape, quoting, ...) -- ExtrOcamlBasic only. *)
-From OV Require Import Base.Strs Syn.Escape Syn.Quote Syn.Ast Syn.Emitter Lex.Lexer.
+From OV Require Import Base.Strs Syn.Escape Syn.Quote Syn.Ast Syn.Emitter Lex.Lexer Syn.Parser.
 Require Import ExtrOcamlBasic.
 
 Definition cls_of (tbl : list (N * N)) (c : N) : N :=
@@ -7,6 +7,12 @@ Definition cls_of (tbl : list (N * N)) (c : N) : N :=
 Definition tokenize_tbl (lenient : bool) (tbl : list (N * N)) (lines : list (str * str)) : lexres :=
   tokenize (cls_of tbl) lenient lines.
 
+Definition numcanon_of (tbl : list (str * (bool * str))) (raw : str) : option (bool * str) :=
+  match find (fun p => str_eqb (fst p) raw) tbl with Some p => Some (snd p) | None => None end.
+Definition parse_tbl (strict : bool) (cls : list (N * N)) (nums : list (str * (bool * str))) (holos : list str)
+           (lines : list (str * str)) : parse_result :=
+  parse_model (cls_of cls) (numcanon_of nums) (fun raw => str_in raw holos) strict lines.
+
 Extraction "../ocaml/gen/syn.ml" extract_anchor tokenize_tbl tkind_code escape unescape escape_opt unescape_opt escape_safe
   needs_quotes emit_str always_quote_key match_identifier match_annotation match_expression match_variable reserved_prefix scalar_class
-  emit emit_value.
+  emit emit_value parse_tbl.
